@@ -32,14 +32,21 @@ Definition ctl_cmd (ctrl ns name action : Z) : command :=
   let r := mkRef ctrl name 0 true in
   mkCommand (if ctrl =? 1 then ns else 0) (name, action) r [r] action.
 
-Definition dCtl : dec (command * bool * nat * list Z) :=
+(* controller run: ctrl, present, G, R, ns, name, action, maxRequeueNum (queue controller;
+   the job controller always retries), number of re-deliveries after the first batch has
+   drained (relist / restart), fault schedule *)
+Definition dCtl : dec (Z * command * bool * nat * nat * list Z * bool) :=
   let* ctrl := dZ in let* b := dBool in let* g := dNat in let* r := dNat in
-  let* ns := dZ in let* name := dZ in let* a := dZ in let* sched := dList dZ in
-  if (ctrl <? 1) || (2 <? ctrl) then fail else ret (ctl_cmd ctrl ns name a, b, (g * r)%nat, sched).
+  let* ns := dZ in let* name := dZ in let* a := dZ in let* mx := dZ in let* n2 := dNat in
+  let* sched := dList dZ in
+  if (ctrl <? 1) || (2 <? ctrl) || (mx <? -1) then fail
+  else ret (if ctrl =? 1 then -1 else mx, ctl_cmd ctrl ns name a, b, (g * r)%nat, n2, sched, (1 <? g)%nat).
 
-Definition eSys (s : sys) : list Z :=
-  eList (fun o => [eOut o]) (log s) ++ [-101] ++ eList eReq (enq s) ++
-  [if present s then 1 else 0; Z.of_nat (retries s)].
+(* with several racing workers the number of requests already enqueued at a Delete call
+   depends on the interleaving: it is not compared (0), only fed to the law *)
+Definition eSys (multi : bool) (s : sys) : list Z :=
+  eList (fun os : dout * nat => [eOut (fst os); if multi then 0 else Z.of_nat (snd os)]) (combine (log s) (seen s)) ++ [-101] ++
+  eList eReq (enq s) ++ [if present s then 1 else 0; Z.of_nat (retries s)].
 
 (* ---------- selector 3: CLI invocations against a scripted API server, then the controllers ---------- *)
 Definition dGout : dec gout :=
@@ -87,9 +94,13 @@ Definition entry (sel : Z) (toks : list Z) : list Z :=
          | Some (v, ns, t) => eList eCmd (cli_create v ns t)
          | None => bad_input end
   | 2 => match run_dec dCtl toks with
-         | Some (c, b, n, sched) =>
-             match seq_run c (n + length sched + 1) n sched (init b) with
-             | Some s => eSys s
+         | Some (mx, c, b, n1, n2, sched, multi) =>
+             match seq_phase mx c n1 sched (init b) with
+             | Some (s1, rest) =>
+                 match seq_phase mx c n2 rest s1 with
+                 | Some (s2, _) => eSys multi s2
+                 | None => [-999998]
+                 end
              | None => [-999998]               (* fuel exhausted *)
              end
          | None => bad_input end
@@ -104,10 +115,11 @@ Definition entry (sel : Z) (toks : list Z) : list Z :=
   | 101 => match run_dec (let* i := dCli in let* cs := dList dCmd in ret (i, cs)) toks with
            | Some ((v, ns, t), cs) => eBool (law_cli v ns t cs)
            | None => bad_input end
-  | 102 => match run_dec (let* i := dCtl in let* outs := dList dOut in let* _ := dZ in
+  | 102 => match run_dec (let* i := dCtl in let* outs := dList (dPair dOut dNat) in let* _ := dZ in
                           let* rq := dList dReq in let* p := dBool in let* rt := dNat in
                           ret (i, outs, rq, p, rt)) toks with
-           | Some ((c, b, _, _), outs, rq, p, rt) => eBool (law_amo c b outs rq p rt true)
+           | Some ((mx, c, b, _, _, _, _), outs, rq, p, rt) =>
+               eBool (law_amo mx c b (map fst outs) (map snd outs) rq p rt true)
            | None => bad_input end
   | _ => bad_input
   end.
